@@ -4,7 +4,8 @@ import ColumnVerif.Conc.Skel
 # C14 — a failed snapshot reports the error and leaves the collection usable
 
 For every fault sequence: `Snapshot` returns an error exactly when something failed, and whatever
-happened the recorder slot is free again, no descriptor and no temporary file stays behind — so a
+happened the recorder slot is free again, no descriptor, no temporary file and no running compressor goroutine
+stays behind — so a
 later snapshot to a healthy writer succeeds and commits are unaffected (a leaked recorder would
 also make every later commit append to an unlinked file: defect D5, repaired).
 The clean-up actions are read from the current source (`flag_*` below).
@@ -13,7 +14,7 @@ namespace ColumnVerif.Props.C14
 open ColumnVerif.SnapRes
 
 /-- the configuration read from the regenerated skeleton -/
-def codeCfg : SnapCfg := ⟨ColumnVerif.Skel.snapshotProtocol, ColumnVerif.Skel.openCleansOnCasFailure⟩
+def codeCfg : SnapCfg := ⟨ColumnVerif.Skel.snapshotProtocol, ColumnVerif.Skel.openCleansOnCasFailure, ColumnVerif.Skel.compressorsClosed⟩
 
 theorem code_cfg_good : codeCfg = SnapCfg.good := by decide +kernel
 
@@ -21,7 +22,7 @@ theorem code_cfg_good : codeCfg = SnapCfg.good := by decide +kernel
 theorem snapshot_leaves_clean (r : Res) (f : Faults) (h : r.recorder = false) :
     (snapshot SnapCfg.good r f).1 = r ∧
     ((snapshot SnapCfg.good r f).2 = (f.openTempFails || f.writeStateFails || f.copyFails)) := by
-  obtain ⟨rec, fds, temps⟩ := r
+  obtain ⟨rec, fds, temps, workers⟩ := r
   obtain ⟨a, b, c⟩ := f
   simp only at h; subst h
   cases a <;> cases b <;> cases c <;> simp [snapshot, SnapCfg.good]
@@ -29,7 +30,7 @@ theorem snapshot_leaves_clean (r : Res) (f : Faults) (h : r.recorder = false) :
 /-- a snapshot requested while another one is in progress is refused and leaves nothing behind -/
 theorem concurrent_snapshot_refused (r : Res) (f : Faults) (h : r.recorder = true) :
     (snapshot SnapCfg.good r f).1 = r ∧ (snapshot SnapCfg.good r f).2 = true := by
-  obtain ⟨rec, fds, temps⟩ := r
+  obtain ⟨rec, fds, temps, workers⟩ := r
   obtain ⟨a, b, c⟩ := f
   simp only at h; subst h
   cases a <;> simp [snapshot, SnapCfg.good]
@@ -57,11 +58,21 @@ theorem then_good_snapshot_succeeds (r : Res) (fs : List Faults) (h : r.recorder
     installed, the next snapshot is refused although its writer is healthy, and even successful
     snapshots leak a descriptor -/
 theorem missing_defers_counterexample :
-    let bad : SnapCfg := ⟨false, false⟩
-    let r0 : Res := ⟨false, 3, 0⟩
+    let bad : SnapCfg := ⟨false, false, true⟩
+    let r0 : Res := ⟨false, 3, 0, 0⟩
     (snapshot bad r0 ⟨false, true, false⟩).1.recorder = true ∧
     (snapshot bad (snapshot bad r0 ⟨false, true, false⟩).1 ⟨false, false, false⟩).2 = true ∧
     (snapshot bad r0 ⟨false, false, false⟩).1.fds = 4 := by decide
+
+/-- D27 (the code before the repair: no compressor is ever closed): every successful snapshot leaves two goroutines
+    behind, a failed one as well — the count grows without bound with the number of snapshots -/
+theorem unclosed_compressors_counterexample :
+    let bad : SnapCfg := ⟨true, true, false⟩
+    let r0 : Res := ⟨false, 3, 0, 0⟩
+    (snapshot bad r0 ⟨false, false, false⟩).1.workers = 2 ∧
+    (snapshot bad r0 ⟨false, true, false⟩).1.workers = 2 ∧
+    (snapshots bad r0 (List.replicate 54 ⟨false, false, false⟩)).1.workers = 108 ∧
+    (snapshot bad r0 ⟨false, false, false⟩).1.fds = 3 := by decide +kernel
 
 /-- the theorems above, for the configuration the current source has -/
 theorem code_snapshot_leaves_clean (r : Res) (f : Faults) (h : r.recorder = false) :
@@ -69,7 +80,7 @@ theorem code_snapshot_leaves_clean (r : Res) (f : Faults) (h : r.recorder = fals
   rw [code_cfg_good]; exact snapshot_leaves_clean r f h
 
 /-! non-vacuity -/
-example : (snapshots SnapCfg.good ⟨false, 5, 0⟩ [⟨false, true, false⟩, ⟨false, false, true⟩, ⟨false, false, false⟩]) =
-    (⟨false, 5, 0⟩, [true, true, false]) := by decide
+example : (snapshots SnapCfg.good ⟨false, 5, 0, 4⟩ [⟨false, true, false⟩, ⟨false, false, true⟩, ⟨false, false, false⟩]) =
+    (⟨false, 5, 0, 4⟩, [true, true, false]) := by decide
 
 end ColumnVerif.Props.C14
